@@ -1,6 +1,6 @@
 (* C04 — rename_key_: the code stores under the new key first and deletes the old key afterwards (or not at all when the
-   new key is a prefix of the old one); the plain nested dict pops the old key and stores under the new one.
-   The two agree unless the old key is a strict prefix of the new key (D42: there the code loses the entry). *)
+   new key is a prefix of the old one); when the new key lies under the old one it detaches the entry first (fix of D42).
+   The plain nested dict pops the old key and stores under the new one.  The two agree. *)
 From Coq Require Import ZArith List String Bool Lia.
 Import ListNotations.
 From TD Require Import Model.Keys Proofs.KeysP Model.C04_Tree Model.C04_Ops Spec.C04_NestedDict Proofs.C04_AssocP Proofs.C04_CoreP.
@@ -177,8 +177,8 @@ Proof.
     rewrite !set_tuple_2, aget_aset_eq, G, E, S1. split; [now rewrite aset_aset_same|eauto].
 Qed.
 
-(* ---- rename_r on canonical keys, as a function of the two paths ---- *)
-Definition rename_p (p q : list string) (safe : bool) (es : ents) : ents * option err :=
+(* ---- the store-first branch of rename_r, as a function of the two paths ---- *)
+Definition rename_store_first (p q : list string) (safe : bool) (es : ents) : ents * option err :=
   if list_string_eqb p q then
     match view_contains_path true p es with
     | Ok true => (es, None) | Ok false => (es, Some EKey) | Raise e => (es, Some e)
@@ -197,6 +197,35 @@ Definition rename_p (p q : list string) (safe : bool) (es : ents) : ents * optio
             | Ok es1 =>
                 if list_string_eqb (firstn (List.length q) p) q then (es1, None)
                 else match del_tuple p es1 with Ok es2 => (es2, None) | Raise e => (es1, Some e) end
+            end
+        end
+    end.
+
+(* ---- rename_r on canonical keys ---- *)
+Definition rename_p (p q : list string) (safe : bool) (es : ents) : ents * option err :=
+  if list_string_eqb p q then
+    match view_contains_path true p es with
+    | Ok true => (es, None) | Ok false => (es, Some EKey) | Raise e => (es, Some e)
+    end
+  else
+    match (if safe then view_contains_path true q es else Ok false) with
+    | Raise e => (es, Some e)
+    | Ok true => (es, Some EKey)
+    | Ok false =>
+        match get_tuple p es false with
+        | GRaise e => (es, Some e)
+        | GDef => (es, Some EOther)
+        | GVal v =>
+            let under := list_string_eqb (firstn (List.length p) q) p in
+            match (if under then del_tuple p es else Ok es) with
+            | Raise e => (es, Some e)
+            | Ok es0 =>
+                match set_tuple q v es0 with
+                | Raise e => (es0, Some e)
+                | Ok es1 =>
+                    if under || list_string_eqb (firstn (List.length q) p) q then (es1, None)
+                    else match del_tuple p es1 with Ok es2 => (es2, None) | Raise e => (es1, Some e) end
+                end
             end
         end
     end.
@@ -231,9 +260,12 @@ Proof.
   destruct (if safe then view_contains_path true q es else Ok false) as [[|]|e]; try reflexivity.
   destruct p as [|a p']; [congruence|]. destruct q as [|b q']; [congruence|].
   destruct (get_tuple (a :: p') es false) as [v| |e]; try reflexivity.
-  assert (S : match path_keyres (b :: q') with RStr s => Ok (aset s v es) | _ => set_tuple (b :: q') v es end
-              = set_tuple (b :: q') v es) by (destruct q'; reflexivity).
-  rewrite S. destruct (set_tuple (b :: q') v es) as [es1|e]; [|reflexivity].
+  cbv zeta.
+  destruct (if list_string_eqb (firstn (List.length (a :: p')) (b :: q')) (a :: p') then del_tuple (a :: p') es else Ok es) as [es0|e0];
+    [|reflexivity].
+  assert (S : match path_keyres (b :: q') with RStr s => Ok (aset s v es0) | _ => set_tuple (b :: q') v es0 end
+              = set_tuple (b :: q') v es0) by (destruct q'; reflexivity).
+  rewrite S. destruct (set_tuple (b :: q') v es0) as [es1|e]; [|reflexivity].
   assert (K : match path_keyres (a :: p') with RTup lo => list_string_eqb (firstn (List.length (b :: q')) lo) (b :: q') | _ => false end
               = list_string_eqb (firstn (List.length (b :: q')) (a :: p')) (b :: q')).
   { destruct p' as [|a2 p2]; [|reflexivity]. cbn [path_keyres]. symmetry. apply firstn_single_neq.
@@ -261,13 +293,13 @@ Proof.
     apply (IH r sub w ltac:(discriminate) Nr). exact FP.
 Qed.
 
-Theorem rename_p_refines p q safe es : p <> [] -> q <> [] -> ~ strict_prefix p q ->
-  match rename_p p q safe es with
+Lemma rename_store_first_refines p q safe es : p <> [] -> q <> [] -> ~ strict_prefix p q ->
+  match rename_store_first p q safe es with
   | (es', None) => nd_rename p q safe (absE es) = Some (absE es')
   | (es', Some _) => nd_rename p q safe (absE es) = None /\ es' = es
   end.
 Proof.
-  intros Np Nq NP. unfold rename_p, nd_rename.
+  intros Np Nq NP. unfold rename_store_first, nd_rename.
   pose proof (view_contains_refines p es Np) as CP.
   pose proof (get_tuple_refines p es false Np) as GP.
   destruct (list_string_eqb p q) eqn:EQ.
@@ -339,3 +371,100 @@ Proof.
       * destruct (set_tuple q v es) as [es1|e]; [destruct CM as [es2 [D2 S2]]; rewrite D2; now rewrite S2 in SQ0|].
         rewrite CM in SQ0. now split.
 Qed.
+
+(* ---- the new key lies under the old one: detach first ---- *)
+Lemma set_after_del_under : forall p r v es es0, wfE es -> r <> [] ->
+  del_tuple p es = Ok es0 -> exists es1, set_tuple (p ++ r) v es0 = Ok es1.
+Proof.
+  induction p as [|k p IH]; intros r v es es0 W Nr D; [discriminate|].
+  destruct p as [|k2 p2].
+  - rewrite del_tuple_1 in D. destruct (amem k es); [|discriminate]. injection D as <-.
+    destruct r as [|r1 r2]; [congruence|]. cbn [app]. rewrite set_tuple_2.
+    apply wfE_inv in W. destruct W as [ND _]. rewrite (aget_adel_eq k es ND).
+    destruct (set_tuple_nil_ok (r1 :: r2) v ltac:(discriminate)) as [s E]. rewrite E. eauto.
+  - rewrite del_tuple_2 in D. destruct (aget k es) as [[[|] z|sub]|] eqn:G; try discriminate.
+    destruct (del_tuple (k2 :: p2) sub) as [sub0|e] eqn:D0; [|discriminate]. injection D as <-.
+    change ((k :: k2 :: p2) ++ r) with (k :: k2 :: (p2 ++ r)). rewrite set_tuple_2, aget_aset_eq.
+    change (k2 :: p2 ++ r) with ((k2 :: p2) ++ r).
+    destruct (IH r v sub sub0 (wfE_sub _ _ _ W G) Nr D0) as [s1 E]. rewrite E. eauto.
+Qed.
+
+Theorem rename_p_refines p q safe es : p <> [] -> q <> [] -> wfE es -> (strict_prefix p q -> safe = false) ->
+  match rename_p p q safe es with
+  | (es', None) => nd_rename p q safe (absE es) = Some (absE es')
+  | (es', Some _) => nd_rename p q safe (absE es) = None /\ es' = es
+  end.
+Proof.
+  intros Np Nq W SF.
+  destruct (list_string_eqb (firstn (List.length p) q) p) eqn:U.
+  - (* q = p ++ r *)
+    apply firstn_prefix in U. destruct U as [r U].
+    destruct r as [|r1 r2].
+    + (* the same key *)
+      rewrite app_nil_r in U. subst q. pose proof (rename_store_first_refines p p safe es Np Np) as R.
+      assert (NP : ~ strict_prefix p p).
+      { intros [t [Nt E]]. apply (f_equal (@List.length string)) in E. rewrite app_length in E. destruct t; [congruence|cbn in E; lia]. }
+      specialize (R NP). unfold rename_store_first in R. unfold rename_p.
+      assert (T : list_string_eqb p p = true) by now apply list_string_eqb_true. rewrite T in *. exact R.
+    + (* strictly under the old key *)
+      assert (SP : strict_prefix p q) by (exists (r1 :: r2); split; [discriminate|exact U]).
+      rewrite (SF SP). unfold rename_p, nd_rename.
+      assert (NE : list_string_eqb p q = false).
+      { destruct (list_string_eqb p q) eqn:E; [|reflexivity]. apply list_string_eqb_true in E. exfalso.
+        rewrite <- E in U. apply (f_equal (@List.length string)) in U. rewrite app_length in U. cbn in U. lia. }
+      rewrite NE.
+      assert (UT : list_string_eqb (firstn (List.length p) q) p = true) by (apply firstn_prefix; eauto).
+      rewrite UT. cbn [orb].
+      pose proof (get_tuple_refines p es false Np) as GP.
+      pose proof (nd_del_find p (absE es) Np) as DF. pose proof (del_tuple_refines p es) as DR.
+      destruct (get_tuple p es false) as [v| |e].
+      * rewrite GP in *. destruct DF as [d1 DF]. rewrite DF.
+        destruct (list_eq_dec string_dec p q) as [E|_];
+          [exfalso; assert (T : list_string_eqb p q = true) by (now apply list_string_eqb_true); congruence|].
+        destruct (del_tuple p es) as [es0|e0] eqn:DP; [|congruence].
+        assert (d1 = absE es0) by congruence. subst d1. cbn [andb].
+        pose proof (set_tuple_refines q v es0) as SQ.
+        destruct (set_after_del_under p (r1 :: r2) v es es0 W ltac:(discriminate) DP) as [es1 S1].
+        rewrite <- U in S1. rewrite S1 in *. exact SQ.
+      * destruct GP as [_ GP]. discriminate.
+      * destruct GP as [[GP _]|[GP _]]; rewrite GP; now split.
+  - (* not under the old key: the store-first branch *)
+    assert (NP : ~ strict_prefix p q).
+    { intros [r [Nr E]]. assert (T : list_string_eqb (firstn (List.length p) q) p = true) by (apply firstn_prefix; eauto). congruence. }
+    pose proof (rename_store_first_refines p q safe es Np Nq NP) as R.
+    unfold rename_store_first in R. unfold rename_p. rewrite U.
+    destruct (list_string_eqb p q); [exact R|].
+    destruct (if safe then view_contains_path true q es else Ok false) as [[|]|e]; exact R.
+Qed.
+
+(* ---- well-formedness ---- *)
+Lemma get_tuple_wf : forall p es d v, wfE es -> get_tuple p es d = GVal v -> wf v.
+Proof.
+  induction p as [|k rest IH]; intros es d v W G; [discriminate|].
+  destruct rest as [|k2 r2].
+  - rewrite get_tuple_1 in G. destruct (aget k es) as [w|] eqn:A; [|destruct d; discriminate].
+    injection G as <-. exact (wf_aget _ _ _ W A).
+  - rewrite get_tuple_2 in G. destruct (aget k es) as [[[|] z|sub]|] eqn:A; try discriminate; [|destruct d; discriminate].
+    exact (IH sub d v (wfE_sub _ _ _ W A) G).
+Qed.
+
+
+Lemma rename_p_wf p q safe es es' e : wfE es -> rename_p p q safe es = (es', e) -> wfE es'.
+Proof.
+  intros W. unfold rename_p. destruct (list_string_eqb p q).
+  - destruct (view_contains_path true p es) as [[|]|e0]; intros E; injection E as <- _; exact W.
+  - destruct (if safe then view_contains_path true q es else Ok false) as [[|]|e0]; try (intros E; injection E as <- _; exact W).
+    destruct (get_tuple p es false) as [v| |e0] eqn:G; try (intros E; injection E as <- _; exact W).
+    cbv zeta.
+    assert (W0 : forall es0, (if list_string_eqb (firstn (List.length p) q) p then del_tuple p es else Ok es) = Ok es0 -> wfE es0).
+    { intros es0. destruct (list_string_eqb (firstn (List.length p) q) p); [intros D; exact (del_tuple_wf _ _ _ W D)|intros D; injection D as <-; exact W]. }
+    destruct (if list_string_eqb (firstn (List.length p) q) p then del_tuple p es else Ok es) as [es0|e0];
+      [|intros E; injection E as <- _; exact W].
+    specialize (W0 es0 eq_refl).
+    destruct (set_tuple q v es0) as [es1|e0] eqn:S; [|intros E; injection E as <- _; exact W0].
+    assert (W1 : wfE es1) by exact (set_tuple_wf _ _ _ _ W0 (get_tuple_wf _ _ _ _ W G) S).
+    destruct (list_string_eqb (firstn (List.length p) q) p || list_string_eqb (firstn (List.length q) p) q);
+      [intros E; injection E as <- _; exact W1|].
+    destruct (del_tuple p es1) as [es2|e0] eqn:D; intros E; injection E as <- _; [exact (del_tuple_wf _ _ _ W1 D)|exact W1].
+Qed.
+
